@@ -13,13 +13,14 @@ from .wrapcheck import run_cases
 TOGGLES = ("BUG_NoDirWatch", "BUG_NoCsumCheck", "BUG_NoDirWatchUpdate")
 
 
-def write_cfg(d, layout, maxops, good, toggles=(), emit=True, liveness=False):
+def write_cfg(d, layout, maxops, good, toggles=(), emit=True, liveness=False, sample=1):
     C.copy_specs(d, ["FileWatch.tla"])
     lines = ["SPECIFICATION Spec", "CONSTANTS", '  Layout = "%s"' % layout, "  MaxOps = %d" % maxops,
              "  Good = {%s}" % ", ".join('"%s"' % g for g in good), '  Bad = {"b1"}']
     for t in TOGGLES:
         lines.append("  %s = %s" % (t, "TRUE" if t in toggles else "FALSE"))
     lines.append("  RecheckAfterRearm = %s" % ("FALSE" if "NoRecheck" in toggles else "TRUE"))
+    lines.append("  SampleN = %d" % sample)
     lines += ["INVARIANTS ConvergedOK ErrorReported", "PROPERTIES NoVersionForIdentical" + (" DrainsEventually" if liveness else ""),
               "CHECK_DEADLOCK FALSE"]
     if emit:
@@ -27,9 +28,9 @@ def write_cfg(d, layout, maxops, good, toggles=(), emit=True, liveness=False):
     open(os.path.join(d, "F.cfg"), "w").write("\n".join(lines) + "\n")
 
 
-def emit(scratch, tag, layout, maxops, good, toggles=(), do_emit=True, liveness=False):
+def emit(scratch, tag, layout, maxops, good, toggles=(), do_emit=True, liveness=False, sample=1):
     d = scratch.sub(tag)
-    write_cfg(d, layout, maxops, good, toggles, do_emit, liveness)
+    write_cfg(d, layout, maxops, good, toggles, do_emit, liveness, sample)
     res = C.run_tlc(d, "FileWatch", "F.cfg", timeout=2400)
     cases = set()
     for line in res.out.splitlines():
@@ -58,18 +59,19 @@ def run_check(pid, tier, replay=None):
             return 1 if bad else 0
         rng = random.Random(C.seed())
         quick = tier == "quick"
-        plan = [("direct", 3 if quick else 4, ["g0", "g1"]), ("k8s", 3 if quick else 4, ["g0", "g1"])]
+        # measured: direct/4 1.4M states, k8s/4 2.0M, k8s/5 63M (7 min); every history is emitted once per drained end state
+        plan = [("direct", 3 if quick else 4, ["g0", "g1"], 1), ("k8s", 3 if quick else 4, ["g0", "g1"], 1)]
         if not quick:
-            plan.append(("direct", 5, ["g0", "g1"]))
+            plan.append(("k8s", 5, ["g0", "g1"], 20))
         runs, cases, states, trans = [], [], 0, 0
-        for i, (layout, mo, good) in enumerate(plan):
-            cs, res = emit(scratch, "fw%d" % i, layout, mo, good)
+        for i, (layout, mo, good, sample) in enumerate(plan):
+            cs, res = emit(scratch, "fw%d" % i, layout, mo, good, sample=sample)
             if not res.ok:
                 raise C.Inconclusive("FileWatch.tla violates its own properties (%s): specification alarm\n%s" % (res.violated, res.out[-1500:]))
             states += res.distinct
             trans += res.generated
             runs.append({"layout": layout, "max_ops": mo, "distinct_states": res.distinct, "histories": len(cs), "exhaustive": True})
-            cap = 700 if quick else 12000
+            cap = 700 if quick else 2500
             if len(cs) > cap:
                 cs = rng.sample(cs, cap)
                 runs[-1]["histories_executed_sample"] = cap
@@ -93,7 +95,7 @@ def run_check(pid, tier, replay=None):
             keep = mids[:1]
             a = {"id": "f%d-n" % i, "layout": c["layout"], "ops": [dict(o, pause=0, mid=(k in keep)) for k, o in enumerate(c["ops"])]}
             b = {"id": "f%d-p" % i, "layout": c["layout"],
-                 "ops": [dict(o, pause=rng.choice([0, 150, 1500, 4000, -1]), mid=False) for o in c["ops"]]}
+                 "ops": [dict(o, pause=rng.choice([0, 150, 1500, 4000, -1] if quick else [0, 0, 150, 1500, -1]), mid=False) for o in c["ops"]]}
             todo += [a, b]
         # the read / re-arm window of the watch loop is narrow: histories that end in an in-place rewrite right after a swap
         # are repeated without pauses under parallel load (finding D14 showed up in about 4% of such runs)
@@ -107,7 +109,7 @@ def run_check(pid, tier, replay=None):
                 todo.append({"id": "f-race-%d" % k, "layout": "k8s", "ops": [dict(o, pause=0, mid=False) for o in c["ops"]]})
         for k in range(1 if quick else 4):
             todo.append({"id": "f-overflow-%d" % k, "layout": "overflow", "ops": []})
-        results, crashes = run_cases(vh, scratch, todo, workers=8, subcmd="fw")
+        results, crashes = run_cases(vh, scratch, todo, workers=8 if quick else 16, subcmd="fw")
         byid = {c["id"]: c for c in todo}
         violations, lat = [], []
         for cid, first, stderr in crashes:
